@@ -59,6 +59,7 @@ type FuncContract struct {
 	only      []string // if non-empty: the only callees whose contracts are used in this body
 	theories  []string // built-in theories switched on for this body ("numerals")
 	safetyOnly bool // keep only panic-freedom obligations
+	assumeFrame bool // the declared frame is what call sites use; in the body it is assumed, not proved (frame obligations dropped)
 	standalone bool // verified on its own; ignored at call sites
 	opaque    []string // callees treated as unknown code (never expanded, contract not used)
 	dbonly    []string // callees assumed to change only database buckets and Go maps (results arbitrary)
@@ -379,7 +380,7 @@ func installUniverse() {
 
 var clauseKinds = map[string]bool{"guard": true, "callback": true, "step": true, "requires": true, "ensures": true, "invariant": true, "decreases": true,
 	"modifies": true, "props": true, "trusted": true, "pure": true, "inline": true, "unroll": true, "lemma": true,
-	"assume": true, "nopanic": true, "dead": true, "expand": true, "ignore": true, "only": true, "assert": true, "heapframe": true, "skip": true, "dbonly": true, "theory": true, "opaque": true, "standalone": true, "safetyonly": true}
+	"assume": true, "nopanic": true, "dead": true, "expand": true, "ignore": true, "only": true, "assert": true, "heapframe": true, "skip": true, "dbonly": true, "theory": true, "opaque": true, "standalone": true, "safetyonly": true, "assumeframe": true}
 
 var headRe = regexp.MustCompile(`^func\s+(.+)$`)
 var scopeRe = regexp.MustCompile(`^(loop|closure|if)#(\d+)\s+(.*)$`)
@@ -1587,6 +1588,11 @@ func (p *Program) fillContract(fc *FuncContract, clauses []*rawClause, body *ast
 			// theory numerals: the generator's lemmas about decimal numerals are added at string operations of this body
 			// theory strlen: strOf(...) under a quantifier carries len(strOf(b)) == len(b)
 			fc.theories = append(fc.theories, strings.Fields(rc.text)...)
+		case "assumeframe":
+			// assumeframe: call sites use the declared `modifies` frame, the body is verified without frame obligations
+			// (as under `modifies *`).  For lemma-level contracts on a function that used to be a trusted boundary: its
+			// frame stays an assumption (listed in the evidence), its asserts are proved.
+			fc.assumeFrame = true
 		case "safetyonly":
 			// safetyonly: only the panic-freedom obligations of this body are kept (callee preconditions, frames and the
 			// like are not checked): a thin safety-only contract
